@@ -18,7 +18,8 @@ func init() {
 		Explanation: "Liveness itself cannot be decided statically. Decided: the frozen wake-up obligations the fixed-point argument rests on — (1) every return that waits on the predecessor proposal re-queues that predecessor; (2) every terminal state of a proposal phase whose step moved a cursor a successor waits on (COMMITTED, APPLIED, ABORTED, apply-FAILED) re-queues the successor when one is linked; " +
 			"(3) entering Validate and failing Initialize re-queue transaction index+1 (which waits for its predecessor to leave INITIALIZING); (4) each controller watcher maps a store event to exactly the frozen set of ids; (5) a failed store or topo call that is not classified as tolerated (NotFound/AlreadyExists/Conflict) makes the pass return a non-nil error, which the controller library retries; " +
 			"(6) waits on a serializable predecessor transaction carry a wake-up." +
-			" Also: an ABORTING pass that writes nothing is infeasible where the abort can move (C09.11).",
+			" Also: an ABORTING pass that writes nothing is infeasible where the abort can move (C09.11)." +
+			" Also: C09.12 listener before snapshot, C09.13 abort gate.",
 		Declined: []string{"the fixed-point / termination claim over all delivery orders", "that the controller library delivers every queued id"},
 		Run:      runC09,
 		Witness:  []WitnessTarget{{pkgProposalCtl, nil}, {pkgTransactionCtl, nil}, {pkgConfigCtl, []string{"Start"}}, {pkgMastershipCtl, []string{"Start"}}},
@@ -63,6 +64,14 @@ func runC09(c *engine.Ctx, tier string) {
 	}
 	// (3) transaction index+1
 	c.Al = transactionAliases(c.P)
+	// the abort of a transaction is complete only when EVERY proposal is aborted — a refused proposal's abort is what
+	// moves the cursors past it, and its successor waits for exactly that (seed C09-r52; the same gate is C01.1d)
+	allProposalsGates(c, "C09.13", "d")
+	// a store watch registers its listener before it reads the snapshot it replays: a record created in between is in
+	// neither, and the controller that depends on the watch never hears of it (seed C09-r51; the same clause is C15.3)
+	for _, rel := range []string{pkgStorePropV2, pkgStoreTxV2, pkgStoreCfgV2} {
+		watchOrder(c, "C09.12/"+strings.TrimPrefix(rel, "pkg/store/"), rel)
+	}
 	requeueSucc := "controller.Result{Requeue:controller.NewID((@T.Index + 1))}"
 	c.Outcome(engine.Outcome{ID: "C09.3a", Pkg: pkgTransactionCtl, Root: "Reconciler.Reconcile", Min: 1,
 		When:    "#wrote(config/v2.TransactionPhases.Validate=) && !#failed(" + stTxUpdStat + ")",
